@@ -42,6 +42,7 @@ FIXED = [
  (["C05", "C01", "C18"], "e201d7a", "D56", "TrimeshPolyhedron._contains / TrimeshBoundary._contains passed all columns of the points (incl. parameters) to trimesh: LHS / Gaussian samplers and __contains__ with parameters raised 'points must be (n,3)'; found after polyhedra were added to the generators"),
  (["C10"], "db7a91b", "D57", "TrimeshBoundary density sampling computed the number of points from the volume instead of the surface area; found by the C10 monitor"),
  (["C10", "C02"], "962cacd", "D58", "TrimeshPolyhedron.sample_grid returned more points than requested when the bounding box grid left too many points inside (n and density); found by the C10 monitor"),
+ (["C01", "C11"], "e65821c", "D59", "ShapelyPolygon.sample_random_uniform put all points left over by the integer allotment per triangle into the biggest inner triangle: for n=1 every point lay there and (polygon & domain).sample_random_uniform(n=1) (e.g. through LHSSampler top-up) never terminated when that triangle misses the other operand; found by the C01 monitor (progress budget)"),
 ]
 
 OPEN = [
@@ -70,8 +71,8 @@ OPEN = [
   "witness": "p = Parameter(1.0, R1('a')).join(Parameter(2.0, R1('b'))); PINNCondition(module, sampler, residual, parameter=p) -> TypeError",
   "why_not_fixed": "registering the individual Parameters needs a different representation of joined parameters (the join produces a new tensor)"},
  {"id": "KF-C11-dependent-product-n1", "property": "C11", "status": "open", "design_item": "D30",
-  "match": {"kind": "not_uniform", "dep_product": True, "mode": "small", "nsmall": 1},
-  "what": "ProductDomain whose first factor depends on the second, sample_random_uniform(n=1): _sample_uniform_b_points returns the single partner value without the volume-weighted acceptance (the shortcut for one volume), so the partner coordinate is uniform on the second factor instead of weighted by the measure of the first factor",
+  "match": {"kind": "not_uniform", "dep_product": True, "mode": "small"},
+  "what": "ProductDomain whose first factor depends on the second, sample_random_uniform with small n: _sample_uniform_b_points accepts partner values against the maximum volume of the current batch (for n=1 it returns the single partner value without any acceptance), so for small n the partner coordinate is not weighted by the measure of the first factor; the bias vanishes for large n",
   "witness": "Circle(x; radius 1 + 0.25 s) * Interval(s): 3000 calls with n=1, two-sample chi-square against the twin rejection sampler p < 1e-9 (C11 seed 3); E[s] = 0.495 instead of 0.703 in the design experiment e3",
   "why_not_fixed": "with a single proposal there is no maximum volume to accept against; an unbiased n=1 needs a bound of the first factor's volume over the second factor (not available) or a loop with a running maximum - a redesign"},
  {"id": "KF-C05-transformed-boundary-float32", "property": "C05", "status": "open", "design_item": "D53",
